@@ -84,31 +84,49 @@ def run(chk, repo):
            'the label of a Sec-truncated peptide can be built without the SECT event', key=mt.qual + '::sect-before-label', fn=mt.qual)
     vt = repo.func(VPD + 'VariantPeptideDict.translational_modification')
     chk.uses(vt)
-    t = [norm_stmt(s) for s in ast.walk(vt.node) if isinstance(s, (ast.Assign, ast.AugAssign))]
-    ok = "cur_metadata.label += '|' + '|'.join((v.id for v in comb))" in t and 'cur_metadata = copy.copy(metadata)' in t and 'cur_metadata.has_variants = True' in t
+    from sa import sem
+    nvt = sem.nf(repo, vt)
+    combs = [l for l in ast.walk(nvt) if isinstance(l, ast.For) and 'combinations(' in unparse(l.iter) and isinstance(l.target, ast.Name)]
+    if len(combs) != 1:
+        raise AnalysisError(f"anchor={vt.qual}: loop over itertools.combinations(...) not found ({len(combs)})")
+    COMB = combs[0].target.id
+    # label: every id list that is joined into a label inside the combination loop ranges over the applied combination
+    joins = [c for c in ast.walk(combs[0]) if isinstance(c, ast.Call) and call_name(c) == 'join' and c.args]
+    srcs = []
+    for c in joins:
+        a = c.args[0]
+        if isinstance(a, (ast.GeneratorExp, ast.ListComp)):
+            srcs.append(unparse(a.generators[0].iter))
+        else:
+            srcs.append(unparse(a))
+    lab = [n for n in ast.walk(combs[0]) if isinstance(n, (ast.Assign, ast.AugAssign)) and
+           any(isinstance(t, ast.Attribute) and t.attr == 'label' for t in (n.targets if isinstance(n, ast.Assign) else [n.target]))]
+    cp = [n for n in ast.walk(combs[0]) if isinstance(n, ast.Call) and call_name(n) == 'copy' and n.args and 'metadata' in unparse(n.args[0])]
+    hv = [n for n in ast.walk(combs[0]) if isinstance(n, ast.Assign) and isinstance(n.targets[0], ast.Attribute) and n.targets[0].attr == 'has_variants'
+          and isinstance(n.value, ast.Constant) and n.value.value is True]
+    ok = bool(joins) and all(x == COMB for x in srcs) and bool(lab) and bool(cp) and bool(hv)
     chk.ob('C09.b', 'W2F ids of the applied combination are appended to a copy of each metadata', vt.where, ok,
-           'W2F label construction altered', key=vt.qual + '::w2f-label', fn=vt.qual)
+           f"W2F label construction altered (ids joined from {srcs}, applied combination is '{COMB}'; label stores {len(lab)}, metadata copies {len(cp)})",
+           key=vt.qual + '::w2f-label', fn=vt.qual)
 
     chk.rule('C09.c', 'W>F combination builder accumulates', 1)
-    inner = [l for l in G.find_for(vt.node) if unparse(l.iter) == 'comb' and unparse(l.target) == 'v']
+    inner = [l for l in ast.walk(combs[0]) if isinstance(l, ast.For) and unparse(l.iter) == COMB]
     ok = False
-    detail = 'inner substitution loop not found'
+    detail = 'inner substitution loop over the combination not found'
     if len(inner) == 1:
-        assigns = [s for s in inner[0].body if isinstance(s, ast.Assign)]
-        # the new sequence must be built from the accumulator and be stored back into the accumulator
-        acc = None
-        for s in reversed(inner[0].body):
-            if isinstance(s, ast.Assign) and isinstance(s.value, ast.Name):
-                acc = unparse(s.targets[0])
-                break
+        stored = {n.id for s_ in inner[0].body for n in ast.walk(s_) if isinstance(n, ast.Name) and isinstance(n.ctx, ast.Store)}
+        # accumulators: names assigned in the loop whose value (transitively, inside the loop) is built from slices
         reads = set()
-        for s in inner[0].body:
-            for n in ast.walk(s):
+        for s_ in inner[0].body:
+            for n in ast.walk(s_):
                 if isinstance(n, ast.Subscript) and isinstance(n.slice, ast.Slice) and isinstance(n.value, ast.Name):
                     reads.add(n.value.id)
-        ok = acc is not None and reads == {acc}
-        detail = f"slices are taken from {sorted(reads)} while the accumulator is '{acc}'"
-    chk.ob('C09.c', 'every slice of the substitution step reads the accumulator', repo.loc(vt, inner[0]) if inner else vt.where, ok,
+        # a slice base that is never re-assigned in the loop is the unmodified peptide
+        fresh = {r for r in reads if r not in stored}
+        # chain: every stored name that is sliced must be (re)defined from a value that depends on a sliced accumulator
+        ok = bool(reads) and not fresh
+        detail = f"slices are taken from {sorted(reads)}; never re-assigned in the loop: {sorted(fresh)}"
+    chk.ob('C09.c', 'every slice of the substitution step reads the accumulator', vt.where, ok,
            f"{detail}: a step built from the unmodified peptide undoes the previous substitutions, so multi-W combinations are lost and labels name "
            "events the sequence does not contain", key=vt.qual + '::accumulate', fn=vt.qual)
 
